@@ -1,6 +1,6 @@
 (* C11: results are invariant under where in the buffer the text starts.
    PROVED for the models of ParseCallIDVal, ParseUIntVal / ParseExpiresVal, ParseCLenVal,
-   ParseCSeqVal and ParseFLine (Shift.v): for every buffer, every start offset inside it, every
+   ParseCSeqVal, ParseFLine (Shift.v) and ParseNameAddrPVal for every header kind (ShiftFb.v): for every buffer, every start offset inside it, every
    sequence of junk bytes put in front, valid input or not - the call on the longer buffer, started
    |junk| further on with a fresh object, returns the same verdict, the returned offset moved by
    |junk|, every numeric / type value unchanged, every reported field moved by exactly |junk| and
@@ -9,10 +9,10 @@
    (Offsets are in N: the 65,535 limit is not part of the statement.)  The rule behind it,
    `C11_shift_rule`, is parser independent.
    Relocation of a parsed URI: every present component moves by the same amount, exact inside 16 bits.
-   PARTIAL: not proved for the name-addr automaton, the parameter parsers, the lists, the header
+   PARTIAL: not proved for the parameter parsers, the lists, the header
    line / block and the message: shift oracle (junk prefixes, k up to 65535 - len) and the
    correspondence at offsets 0 and k. *)
-From Sipsp Require Import Harness URIViews Shift.
+From Sipsp Require Import Harness URIViews Shift ShiftFb.
 
 Theorem C11_shift_rule : forall (S : Type) (iter : list byte -> list byte -> N -> S -> ires S) (J : list byte) (R : S -> S -> Prop),
   (forall pre rest i s s', i = nnat (length pre) -> R s s' ->
@@ -36,6 +36,14 @@ Proof. exact cseq_shift. Qed.
 Theorem C11_first_line : forall junk buf offs, offs <= nnat (length buf) ->
   res_shift (rev junk) (Rfl (nnat (length junk))) (parse_fline buf offs fline0) (parse_fline (junk ++ buf) (offs + nnat (length junk)) fline0).
 Proof. exact fline_shift. Qed.
+
+(* the 23-state name-addr automaton.  R0 (ShiftFb.v): same state and verdict-independent values (star, lr,
+   expires, q, type, parameter error); name / uri / tag moved or unset in both runs; the parameters span
+   moved, or not started (offset 0) in both; the value span moved unless the parser is still in its initial
+   state; the error offset moved or zero in both; the private offsets related according to the state *)
+Theorem C11_name_addr : forall h junk buf offs, offs <= nnat (length buf) ->
+  res_shiftI (rev junk) (R0 (nnat (length junk))) (parse_nameaddr h buf offs pfrom0) (parse_nameaddr h (junk ++ buf) (offs + nnat (length junk)) pfrom0).
+Proof. exact nameaddr_shift. Qed.
 
 (* spelled out for a successfully parsed Call-ID and CSeq: what "related" means at the end *)
 Theorem C11_callid_success : forall junk buf offs o s, offs <= nnat (length buf) ->
@@ -78,4 +86,5 @@ Theorem C11_shift_is_exact_inside_16_bits : forall start offs f f',
   po f' = po f - start + offs /\ pl f' = pl f.
 Proof. exact adjust_exact. Qed.
 Print Assumptions C11_first_line.
+Print Assumptions C11_name_addr.
 Print Assumptions C11_cseq.
